@@ -1,5 +1,5 @@
 (* Model/Sort.v — executable model of
-     pkg/yqlib/operator_sort.go      (sortByOperator, Less, compare)
+     pkg/yqlib/operator_sort.go      (sortByOperator, Less, compare, sortableFloat)
      pkg/yqlib/operator_compare.go   (compareScalars, superlativeByComparison)
      pkg/yqlib/operator_sort_keys.go (sortKeys)
      pkg/yqlib/lib.go                (parseInt64)
@@ -10,8 +10,9 @@
    A scalar is (tag, text) as in yq.  Only the five core tags are modelled;
    timestamps, custom tags and non-scalar operands are outside the model.
 
-   Outcomes: Ok | Err (a Go error return) | Panic (the explicit panic(err) of
-   the sort comparator) | Unmodelled (text the model does not claim to
+   Outcomes: Ok | Err (a Go error return) | Panic (the panic(err) the sort
+   comparator had before the fix in /repo; no function produces it any more,
+   see C15_cmp_never_panics) | Unmodelled (text the model does not claim to
    predict: hexadecimal floats with a p exponent, strings that could be
    RFC3339 timestamps on the left of a comparison operator). *)
 From Coq Require Import List NArith ZArith QArith Bool.
@@ -96,7 +97,7 @@ Definition parse_int64 (s : str) : option Z :=
   | _ => go_parse_int 10 s'
   end.
 
-(* int64 subtraction wraps; int(...) is the identity on a 64-bit platform *)
+(* int64 subtraction wraps (the comparator returned int(lhs - rhs) before the fix; kept for reference, unused) *)
 Definition wrap64 (z : Z) : Z := (z + two63) mod two64 - two63.
 
 (* ------------------------------------------------------------------ *)
@@ -274,21 +275,51 @@ Definition truthy (s : str) : bool :=
 (* ------------------------------------------------------------------ *)
 Definition is_num (t : tag) : bool := match t with TInt | TFloat => true | _ => false end.
 
-Definition cmp_float_branch (a b : scalar) : outcome Z :=
-  match parse_float (s_text a) with
-  | Ok x =>
-      match parse_float (s_text b) with
-      | Ok y => Ok (if f_eq x y then 0 else if f_lt x y then -1 else 1)
-      | Unmodelled => Unmodelled
-      | _ => Panic
+(* float64(int64) : the integer rounded to binary64 *)
+Definition float_of_int (z : Z) : outcome fval := round_fx (z <? 0) (Z.abs z) 0.
+
+Definition lit_dinf : str := [46; 105; 110; 102]%N.            (* .inf *)
+Definition lit_pdinf : str := [43; 46; 105; 110; 102]%N.       (* +.inf *)
+Definition lit_ndinf : str := [45; 46; 105; 110; 102]%N.       (* -.inf *)
+Definition lit_dnan : str := [46; 110; 97; 110]%N.             (* .nan *)
+
+(* sortableFloat: an !!int through parseInt64 when that succeeds, the yaml
+   spellings of infinity and NaN, otherwise strconv.ParseFloat *)
+Definition sortable_float (x : scalar) : outcome fval :=
+  match (match s_tag x with TInt => parse_int64 (s_text x) | _ => None end) with
+  | Some z => float_of_int z
+  | None =>
+      let l := lower_str (s_text x) in
+      if str_is l lit_dinf || str_is l lit_pdinf then Ok (FInf false)
+      else if str_is l lit_ndinf then Ok (FInf true)
+      else if str_is l lit_dnan then Ok FNaN
+      else parse_float (s_text x)
+  end.
+
+Definition text_order (a b : scalar) : Z := z_of_cmp (str_cmp (s_text a) (s_text b)).
+
+(* two numbers: both int64 exactly; otherwise as floats; a number that cannot be read: by text *)
+Definition cmp_numbers (a b : scalar) : outcome Z :=
+  match (match s_tag a, s_tag b with
+         | TInt, TInt =>
+             match parse_int64 (s_text a), parse_int64 (s_text b) with
+             | Some x, Some y => Some (z_of_cmp (x ?= y))
+             | _, _ => None
+             end
+         | _, _ => None
+         end) with
+  | Some z => Ok z
+  | None =>
+      match sortable_float a, sortable_float b with
+      | Ok x, Ok y => Ok (if f_eq x y then 0 else if f_lt x y then -1 else 1)
+      | Unmodelled, _ | _, Unmodelled => Unmodelled
+      | _, _ => Ok (text_order a b)
       end
-  | Unmodelled => Unmodelled
-  | _ => Panic
   end.
 
 Definition cmp (a b : scalar) : outcome Z :=
   match s_tag a, s_tag b with
-  | TNull, TNull => Ok (z_of_cmp (str_cmp (s_text a) (s_text b)))   (* falls through to strings.Compare *)
+  | TNull, TNull => Ok 0
   | TNull, _ => Ok (-1)
   | _, TNull => Ok 1
   | TBool, TBool =>
@@ -297,13 +328,10 @@ Definition cmp (a b : scalar) : outcome Z :=
       Ok (if Bool.eqb l r then 0 else if l then 1 else -1)
   | TBool, _ => Ok (-1)
   | _, TBool => Ok 1
-  | TInt, TInt =>
-      match parse_int64 (s_text a), parse_int64 (s_text b) with
-      | Some x, Some y => Ok (wrap64 (x - y))
-      | _, _ => Panic
-      end
-  | TStr, _ | _, TStr => Ok (z_of_cmp (str_cmp (s_text a) (s_text b)))
-  | _, _ => cmp_float_branch a b
+  | TStr, TStr => Ok (text_order a b)
+  | TStr, _ => Ok 1                      (* a number and a non-number: the number first *)
+  | _, TStr => Ok (-1)
+  | _, _ => cmp_numbers a b
   end.
 
 (* sortableNodeArray.Less over the two lists of key results *)
@@ -527,15 +555,27 @@ Definition den (x : scalar) : option value :=
   match s_tag x with
   | TNull => Some VNull
   | TBool => Some (VBool (truthy (s_text x)))
-  | TInt => match parse_int64 (s_text x) with Some z => Some (VNum (inject_Z z)) | None => None end
-  | TFloat => match parse_float (s_text x) with Ok (FFin fx) => Some (VNum (Qmake fx fx_pos)) | _ => None end
+  | TInt => match parse_int64 (s_text x) with Some z => Some (VNum (XFin (inject_Z z))) | None => None end
+  | TFloat =>
+      match sortable_float x with
+      | Ok (FFin fx) => Some (VNum (XFin (Qmake fx fx_pos)))
+      | Ok (FInf neg) => Some (VNum (if neg then XNegInf else XPosInf))
+      | _ => None
+      end
   | TStr => Some (VStr (s_text x))
   end.
 
 (* total version; only meaningful where [den] is defined *)
 Definition vden (x : scalar) : value := match den x with Some v => v | None => VNull end.
 
-(* the text of an !!int scalar, read by ParseFloat, is exactly the integer *)
+(* the integer is exactly representable in binary64 (sort reads an int next to a float as float64(int64)) *)
+Definition int_exact (x : scalar) : bool :=
+  match parse_int64 (s_text x) with
+  | Some z => match float_of_int z with Ok (FFin fx) => fx =? z * fx_scale | _ => false end
+  | None => false
+  end.
+
+(* the text of an !!int scalar, read by ParseFloat, is exactly the integer (the operators < <= > >= read it so) *)
 Definition int_reads_exact (x : scalar) : bool :=
   match parse_int64 (s_text x), parse_float (s_text x) with
   | Some z, Ok (FFin fx) => fx =? z * fx_scale
@@ -544,25 +584,15 @@ Definition int_reads_exact (x : scalar) : bool :=
 
 Definition is_some {A : Type} (o : option A) : bool := match o with Some _ => true | None => false end.
 
-(* D, pairwise: both scalars denote; two nulls are spelled alike; the
-   difference of two ints fits in int64; an int next to a float reads
-   exactly as a float; a number never meets a string. *)
+(* D, pairwise: both scalars denote a value (ints accepted by parseInt64,
+   floats readable and not NaN) and an int next to a float is exactly
+   representable in binary64. *)
 Definition pair_ok (a b : scalar) : bool :=
   is_some (den a) && is_some (den b) &&
   match s_tag a, s_tag b with
-  | TNull, TNull => str_eqb (s_text a) (s_text b)
-  | TNull, _ | _, TNull => true
-  | TBool, _ | _, TBool => true
-  | TInt, TInt =>
-      match parse_int64 (s_text a), parse_int64 (s_text b) with
-      | Some x, Some y => (- two63 <=? x - y) && (x - y <? two63)
-      | _, _ => false
-      end
-  | TInt, TFloat => int_reads_exact a
-  | TFloat, TInt => int_reads_exact b
-  | TFloat, TFloat => true
-  | TStr, TStr => true
-  | _, _ => false
+  | TInt, TFloat => int_exact a
+  | TFloat, TInt => int_exact b
+  | _, _ => true
   end.
 
 (* the sign of the sort comparator's answer *)
@@ -582,8 +612,22 @@ Definition consistent (l : list elem) : Prop :=
   forall a b, In a l -> In b l -> forall x y, In x (e_keys a) -> In y (e_keys b) -> pair_ok x y = true.
 
 (* where the four operators are defined and claimed to agree with the order *)
+Definition same_outcome (x y : outcome fval) : bool :=
+  match x, y with
+  | Ok (FFin p), Ok (FFin q) => p =? q
+  | Ok (FInf m), Ok (FInf n) => Bool.eqb m n
+  | _, _ => false
+  end.
+
+(* a float operand is spelled so that ParseFloat reads it (not .inf / -.inf, which only sort understands) *)
+Definition ops_float_ok (x : scalar) : bool :=
+  match s_tag x with
+  | TFloat => same_outcome (parse_float (s_text x)) (sortable_float x)
+  | _ => true
+  end.
+
 Definition ops_ok (a b : scalar) : bool :=
-  is_some (den a) && is_some (den b) &&
+  is_some (den a) && is_some (den b) && ops_float_ok a && ops_float_ok b &&
   match s_tag a, s_tag b with
   | TInt, TInt => true
   | TInt, TFloat => int_reads_exact a
